@@ -126,8 +126,32 @@ class _Rewriter(ast.NodeTransformer):
             if _is_struct_ctor(e, imports):
                 return e.args[0]
             # a function that only wraps the constructor
+            m2 = fn = None
             if isinstance(e.func, ast.Name) and not e.keywords:
                 m2, fn = self.env.lookup(mod, e.func.id, "funcs")
+            elif isinstance(e.func, ast.Attribute) and isinstance(e.func.value, ast.Name) and not e.keywords:
+                # module-qualified:  types.get_struct(fmt)
+                src = imports.get(e.func.value.id, "")
+                mname = src.lstrip(".").split(".")
+                mname = ".".join(mname[1:]) if mname and mname[0] == "nptdms" else ".".join(mname)
+                if mname in self.env.funcs and e.func.attr in self.env.funcs[mname]:
+                    m2, fn = mname, self.env.funcs[mname][e.func.attr]
+            if fn is not None:
+                # memoised constructor:  def get(f): try: return CACHE[f] / except KeyError: s = Struct(f); CACHE[f] = s; return s
+                params = [a.arg for a in fn.args.args]
+                ctors = [c for c in ast.walk(fn) if isinstance(c, ast.Call) and _is_struct_ctor(c, self.env.imports.get(m2, {}))]
+                if len(params) == 1 and len(e.args) == 1 and ctors and all(isinstance(c.args[0], ast.Name) and c.args[0].id == params[0] for c in ctors):
+                    locals_ = {t.id for a_ in ast.walk(fn) if isinstance(a_, ast.Assign) and any(a_.value is c for c in ctors)
+                               for t in a_.targets if isinstance(t, ast.Name)}
+                    rets = [r.value for r in ast.walk(fn) if isinstance(r, ast.Return)]
+
+                    def is_it(v):
+                        return any(v is c for c in ctors) or (isinstance(v, ast.Name) and v.id in locals_) or (
+                            isinstance(v, ast.Subscript) and isinstance(v.value, ast.Name) and isinstance(v.slice, ast.Name) and v.slice.id == params[0]
+                            and v.value.id in self.env.assigns.get(m2, {}))
+                    if rets and all(v is not None and is_it(v) for v in rets) and len(fn.body) > 1:
+                        return e.args[0]
+            if isinstance(e.func, (ast.Name, ast.Attribute)) and not e.keywords:
                 if fn is not None:
                     body = [s for s in fn.body if not (isinstance(s, ast.Expr) and isinstance(s.value, ast.Constant))]
                     params = [a.arg for a in fn.args.args]
@@ -531,7 +555,7 @@ class _ExitStackReader(ast.NodeTransformer):
         return new
 
 
-def _pure_properties(cls_node):
+def _pure_properties(cls_node, module_names=()):
     """properties of the class whose getter is `return <test over self's attributes>` (a comparison / and / or / not, no calls):
     name -> expression.  A property that merely hands out a field (an accessor) keeps its name: the rules know such names."""
     out = {}
@@ -540,10 +564,13 @@ def _pure_properties(cls_node):
     for m in cls_node.body:
         if isinstance(m, ast.FunctionDef) and any(isinstance(d, ast.Name) and d.id == "property" for d in m.decorator_list) and len(m.args.args) == 1:
             body = [x for x in m.body if not (isinstance(x, ast.Expr) and isinstance(x.value, ast.Constant))]
-            if len(body) == 1 and isinstance(body[0], ast.Return) and isinstance(body[0].value, (ast.Compare, ast.BoolOp, ast.UnaryOp)) \
-                    and not any(isinstance(x, (ast.Call, ast.Yield, ast.Await, ast.NamedExpr, ast.Lambda)) for x in ast.walk(body[0].value)) \
-                    and all(not isinstance(x, ast.Name) or x.id == m.args.args[0].arg or x.id in ("None", "True", "False") for x in ast.walk(body[0].value)):
-                out[m.name] = (m.args.args[0].arg, body[0].value)
+            rv = body[0].value if len(body) == 1 and isinstance(body[0], ast.Return) else None
+            inner = rv.args[0] if isinstance(rv, ast.Call) and isinstance(rv.func, ast.Name) and rv.func.id == "bool" and len(rv.args) == 1 and not rv.keywords else rv
+            if rv is not None and isinstance(inner, (ast.Compare, ast.BoolOp, ast.UnaryOp, ast.IfExp, ast.BinOp)) \
+                    and not any(isinstance(x, (ast.Call, ast.Yield, ast.Await, ast.NamedExpr, ast.Lambda)) for x in ast.walk(inner)) \
+                    and all(not isinstance(x, ast.Name) or x.id == m.args.args[0].arg or x.id in ("None", "True", "False", "bool") or x.id in module_names
+                            for x in ast.walk(rv)):
+                out[m.name] = (m.args.args[0].arg, rv)
     return out
 
 
@@ -723,14 +750,274 @@ class _WalrusHoister(ast.NodeTransformer):
         return node
 
 
+def _load_api_baseline():
+    import json, os
+    try:
+        with open(os.path.join(os.path.dirname(__file__), "api_baseline.json")) as f:
+            return json.load(f)
+    except (OSError, ValueError):
+        return None
+
+
+class _ConstFolder(ast.NodeTransformer):
+    """after an extension parameter was replaced by its default: tests made of constants only are decided, the branch not taken
+    is dropped (`x if None is None else y` is x;  `if True: A` is A)"""
+
+    @staticmethod
+    def value(e):
+        """(known, value) of an expression made of constants"""
+        if isinstance(e, ast.Constant):
+            return True, e.value
+        if isinstance(e, ast.UnaryOp) and isinstance(e.op, ast.Not):
+            k, v = _ConstFolder.value(e.operand)
+            return (True, not v) if k else (False, None)
+        if isinstance(e, ast.Compare) and len(e.ops) == 1:
+            k1, a = _ConstFolder.value(e.left)
+            k2, b = _ConstFolder.value(e.comparators[0])
+            if k1 and k2:
+                op = e.ops[0]
+                try:
+                    if isinstance(op, ast.Is):
+                        return True, a is b
+                    if isinstance(op, ast.IsNot):
+                        return True, a is not b
+                    if isinstance(op, ast.Eq):
+                        return True, a == b
+                    if isinstance(op, ast.NotEq):
+                        return True, a != b
+                except Exception:
+                    pass
+            return False, None
+        if isinstance(e, ast.BoolOp):
+            vals = [_ConstFolder.value(v) for v in e.values]
+            if isinstance(e.op, ast.And):
+                if any(k and not v for k, v in vals):
+                    return True, False
+                if all(k for k, _v in vals):
+                    return True, all(v for _k, v in vals)
+            else:
+                if any(k and v for k, v in vals):
+                    return True, True
+                if all(k for k, _v in vals):
+                    return True, any(v for _k, v in vals)
+        return False, None
+
+    def visit_IfExp(self, node):
+        self.generic_visit(node)
+        k, v = self.value(node.test)
+        if k:
+            return node.body if v else node.orelse
+        return node
+
+    def visit_BoolOp(self, node):
+        self.generic_visit(node)
+        # `True and x` is x;  `False or x` is x  (a constant operand that does not decide is dropped)
+        keep = []
+        for v in node.values:
+            k, val = self.value(v)
+            if k and ((isinstance(node.op, ast.And) and val) or (isinstance(node.op, ast.Or) and not val)):
+                continue
+            keep.append(v)
+            if k:
+                break           # decides: nothing after it is evaluated
+        if not keep:
+            return ast.copy_location(ast.Constant(value=isinstance(node.op, ast.And)), node)
+        if len(keep) == 1:
+            return keep[0]
+        node.values = keep
+        return node
+
+    def _block(self, stmts):
+        out = []
+        for s in stmts:
+            r = self.visit(s)
+            if isinstance(r, list):
+                out.extend(r)
+            elif r is not None:
+                out.append(r)
+        return out or [ast.Pass()]
+
+    def visit_If(self, node):
+        node.test = self.visit(node.test)
+        node.body = self._block(node.body)
+        node.orelse = self._block(node.orelse) if node.orelse else []
+        k, v = self.value(node.test)
+        if k:
+            taken = node.body if v else node.orelse
+            return [ast.copy_location(x, node) if isinstance(x, ast.Pass) else x for x in taken] or None
+        return node
+
+    def generic_visit(self, node):
+        for f in ("body", "orelse", "finalbody"):
+            v = getattr(node, f, None)
+            if isinstance(v, list) and v and isinstance(v[0], ast.stmt) and not isinstance(node, ast.If):
+                setattr(node, f, self._block(v) if (f == "body" or v) else v)
+        for h in getattr(node, "handlers", []) or []:
+            h.body = self._block(h.body)
+        for field, old in ast.iter_fields(node):
+            if field in ("body", "orelse", "finalbody", "handlers") and isinstance(old, list) and old and isinstance(old[0], (ast.stmt, ast.ExceptHandler)):
+                continue
+            if isinstance(old, list):
+                new = []
+                for x in old:
+                    if isinstance(x, ast.AST):
+                        x = self.visit(x)
+                        if x is None:
+                            continue
+                        if isinstance(x, list):
+                            new.extend(x)
+                            continue
+                    new.append(x)
+                old[:] = new
+            elif isinstance(old, ast.AST):
+                r = self.visit(old)
+                if r is not None and not isinstance(r, list):
+                    setattr(node, field, r)
+        return node
+
+
+def _specialise_extension_params(fn, qual, baseline, calls=None, module_consts=(), passes=None, n_defs=None):
+    n_defs = n_defs or {}
+    """parameters the baseline interface does not have, with a constant default and never rebound in the body, are read as that
+    default: the properties are about the existing interface, an opt-in extension is at its default for every existing call"""
+    base = baseline.get(qual)
+    if base is None:
+        return False
+    a = fn.args
+    if not set(base) <= {x.arg for x in a.posonlyargs + a.args + a.kwonlyargs} | ({a.vararg.arg} if a.vararg else set()) | ({a.kwarg.arg} if a.kwarg else set()):
+        return False            # a parameter of the baseline is gone (renamed): this is not the old interface plus extensions
+    pos = a.posonlyargs + a.args
+    defaults = dict(zip([x.arg for x in pos[len(pos) - len(a.defaults):]], a.defaults))
+    defaults.update({x.arg: d for x, d in zip(a.kwonlyargs, a.kw_defaults) if d is not None})
+    stored = {n.id for n in ast.walk(fn) if isinstance(n, ast.Name) and isinstance(n.ctx, (ast.Store, ast.Del))}
+    names_now = [x.arg for x in pos]
+    cname = fn.name if fn.name != "__init__" else qual.split(".")[-2]
+
+    def passed_by_existing_code(p_):
+        """does a function of the baseline interface call this one with an explicit argument for p_?  Then the extension is in use
+        on an existing path and is not read as its default"""
+        i_ = names_now.index(p_) - (1 if names_now and names_now[0] in ("self", "cls") else 0) if p_ in names_now else None
+        unique = n_defs.get(cname, 0) <= 1
+        for c, q_, caller in (passes or {}).get(cname, []):
+            if q_ not in baseline or q_ == qual:
+                continue
+            given = [k.value for k in c.keywords if k.arg == p_]
+            if not given and unique and i_ is not None and len(c.args) > i_:
+                given = [c.args[i_]]        # (a positional argument only counts when no other function of that name exists)
+            for g_ in given:
+                # handing on one's own extension parameter (itself at its default for every existing call) is not a use
+                ca = caller.args
+                cpos = ca.posonlyargs + ca.args
+                cdef = dict(zip([x.arg for x in cpos[len(cpos) - len(ca.defaults):]], ca.defaults))
+                cdef.update({x.arg: d_ for x, d_ in zip(ca.kwonlyargs, ca.kw_defaults) if d_ is not None})
+                own_ext = isinstance(g_, ast.Name) and g_.id not in baseline.get(q_, []) and g_.id in cdef and isinstance(cdef[g_.id], ast.Constant) \
+                    and p_ in defaults_all and isinstance(defaults_all[p_], ast.Constant) and cdef[g_.id].value == defaults_all[p_].value
+                same_default = isinstance(g_, ast.Constant) and p_ in defaults_all and isinstance(defaults_all[p_], ast.Constant) \
+                    and g_.value == defaults_all[p_].value and type(g_.value) is type(defaults_all[p_].value)
+                if not own_ext and not same_default:
+                    return True
+        return False
+    defaults_all = dict(defaults)
+    defaults = {p: d for p, d in defaults.items() if p in base or not passed_by_existing_code(p)}
+    ext = {p: d for p, d in defaults.items() if p not in base and p not in stored and isinstance(d, ast.Constant)}
+    # `if p is None: p = <computed as before>` for an extension p=None: the computation is unconditional for every existing call
+    changed = False
+    for p_, d in defaults.items():
+        if p_ in base or p_ not in stored or not (isinstance(d, ast.Constant) and d.value is None):
+            continue
+        n_store = sum(1 for n in ast.walk(fn) if isinstance(n, ast.Name) and n.id == p_ and isinstance(n.ctx, (ast.Store, ast.Del)))
+
+        def fill_in(stmts):
+            for i, st in enumerate(stmts):
+                if isinstance(st, ast.If) and not st.orelse and isinstance(st.test, ast.Compare) and len(st.test.ops) == 1 \
+                        and isinstance(st.test.ops[0], ast.Is) and isinstance(st.test.left, ast.Name) and st.test.left.id == p_ \
+                        and isinstance(st.test.comparators[0], ast.Constant) and st.test.comparators[0].value is None \
+                        and len(st.body) == 1 and isinstance(st.body[0], ast.Assign) and len(st.body[0].targets) == 1 \
+                        and isinstance(st.body[0].targets[0], ast.Name) and st.body[0].targets[0].id == p_:
+                    earlier = any(isinstance(n, ast.Name) and n.id == p_ for s0 in stmts[:i] for n in ast.walk(s0))
+                    if not earlier:
+                        stmts[i] = st.body[0]
+                        return True
+            return False
+        if n_store == 1 and fill_in(fn.body):
+            changed = True
+    # an extension parameter without a default for which every call in the package passes the same constant (a private helper
+    # generalised with a parameter that all existing callers pass the old constant for)
+    if calls is not None and "." not in qual.split(".", 1)[1]:
+        fname = fn.name
+        sites = calls.get(fname, [])
+        params_now = [x.arg for x in pos]
+        for p_ in params_now:
+            if p_ in base or p_ in defaults or p_ in stored or p_ in ext:
+                continue
+            i_ = params_now.index(p_)
+            given = []
+            for c in sites:
+                a_ = c.args[i_] if len(c.args) > i_ else next((k.value for k in c.keywords if k.arg == p_), None)
+                given.append(a_)
+            if given and all(isinstance(a_, (ast.Constant, ast.Name)) for a_ in given) and len({ast.dump(a_) for a_ in given}) == 1 \
+                    and (isinstance(given[0], ast.Constant) or given[0].id in module_consts):
+                ext[p_] = given[0] if isinstance(given[0], ast.Constant) else given[0]
+    if not ext:
+        return changed
+
+    class Sub(ast.NodeTransformer):
+        def visit_Name(self, n):
+            if isinstance(n.ctx, ast.Load) and n.id in ext:
+                e_ = ext[n.id]
+                if isinstance(e_, ast.Constant):
+                    return ast.copy_location(ast.Constant(value=e_.value), n)
+                return ast.copy_location(ast.Name(id=e_.id, ctx=ast.Load()), n)
+            return n
+
+        def visit_FunctionDef(self, n):
+            return n
+
+        visit_Lambda = visit_FunctionDef
+    fn.body = [Sub().visit(s) for s in fn.body]
+    folded = _ConstFolder()._block(fn.body)
+    fn.body = folded
+    # a call inside the package that passes the extension explicitly keeps passing it: callees' parameters are specialised where
+    # they are declared, so the argument is simply not read there
+    return True
+
+
 def desugar(trees):
     """trees: module name -> ast.Module (rewritten in place); returns the set of module names that were touched"""
     env = _Env(trees)
+    baseline = _load_api_baseline()
+    calls_by_name = {}
+    n_defs = {}
+    for t_ in trees.values():
+        for n_ in ast.walk(t_):
+            if isinstance(n_, ast.FunctionDef):
+                n_defs[n_.name] = n_defs.get(n_.name, 0) + 1
+    passes = {}          # callee name -> [(call, qualified name of the function the call is in)]
+    for m_, t_ in trees.items():
+        for c_ in ast.walk(t_):
+            if isinstance(c_, ast.Call) and isinstance(c_.func, ast.Name):
+                calls_by_name.setdefault(c_.func.id, []).append(c_)
+
+        def scan(fnode, q_):
+            for c_ in ast.walk(fnode):
+                if isinstance(c_, ast.Call) and isinstance(c_.func, (ast.Name, ast.Attribute)):
+                    passes.setdefault(c_.func.id if isinstance(c_.func, ast.Name) else c_.func.attr, []).append((c_, q_, fnode))
+        for n_ in t_.body:
+            if isinstance(n_, ast.FunctionDef):
+                scan(n_, "%s.%s" % (m_, n_.name))
+            elif isinstance(n_, ast.ClassDef):
+                for f_ in n_.body:
+                    if isinstance(f_, ast.FunctionDef):
+                        scan(f_, "%s.%s.%s" % (m_, n_.name, f_.name))
     all_attrs = {n.attr for t in trees.values() for n in ast.walk(t) if isinstance(n, ast.Attribute)}
     env.final = set() if "*" in env.stored_attrs else {a for a in all_attrs - env.stored_attrs if not any(a.startswith(p) for p in env.stored_prefixes)}
     touched = set()
     for mod, tree in trees.items():
         def do_function(fn, cls_attrs, cls_node=None):
+            if baseline is not None:
+                qual = "%s.%s.%s" % (mod, cls_node.name, fn.name) if cls_node is not None else "%s.%s" % (mod, fn.name)
+                if _specialise_extension_params(fn, qual, baseline, calls_by_name, set(env.assigns.get(mod, {})), passes, n_defs):
+                    touched.add(mod)
             wh = _WalrusHoister()
             wh.generic_visit(fn)
             if wh.changed:
@@ -739,7 +1026,7 @@ def desugar(trees):
             fn.body = [er.visit(x) for x in fn.body]
             if er.changed:
                 touched.add(mod)
-            props = _pure_properties(cls_node)
+            props = _pure_properties(cls_node, set(env.assigns.get(mod, {})) | set(env.imports.get(mod, {})))
             if props and fn.args.args and not any(isinstance(d, ast.Name) and d.id in ("staticmethod", "classmethod") for d in fn.decorator_list) \
                     and fn.name not in props:
                 pi = _PropertyInliner(props, fn.args.args[0].arg)
